@@ -160,8 +160,13 @@ def rule_missing_info(ctx):
     uses = [ev for ev in r.events if ev.kind in ('assert', 'assign', 'store') and any(x == obs for d in ev.data if isinstance(d, tuple) for x in walk(d))
             and not (ev.kind == 'assign' and ev.data[1] == obs)]
     ctx.need(len(uses) >= 4, f"{f.qname}: the two length assertions and the two comparisons of the observations were not found")
-    none_in = (('cmp', 'In', ('const', None), obs), False)
-    bad = [ev for ev in uses if none_in not in atoms([(c, pol) for c, pol in ev.conds])]
+    def excluded(ev):
+        # `None in X` is false (or `None not in X` true) on the path, X being the observations or a conversion of them
+        for c, pol in atoms([(c, pol) for c, pol in ev.conds]):
+            if c[0] == 'cmp' and c[1] in ('In', 'NotIn') and c[2] == ('const', None) and (c[1] == 'NotIn') == bool(pol) and any(x == obs for x in walk(c[3])):
+                return True
+        return False
+    bad = [ev for ev in uses if not excluded(ev)]
     ctx.check(not bad, 'R16.6/missing-info-value', f.construct('observations'), f"{len(uses)} uses of the observations, all where `None in observations` is excluded",
               f"the observations are measured / compared at line(s) {sorted({ev.lineno for ev in bad})} on a path where they may be (None,) - the value pysam returns for '.'", f.where())
     g = ctx.func(FROM)
@@ -174,7 +179,37 @@ def rule_missing_info(ctx):
               "the prior frequency field is converted without dtype=float: an Integer INFO field gives an integer array, and `frequencies /= denom` raises", g.where())
 
 
+def rule_filter_precision(ctx):
+    """pysam hands the values of a Float INFO field over at single precision (0.3 arrives as 0.30000001192...), the filter value is
+    parsed from text as a Python float.  Compared as they are, a value written in the record exactly as the filter value is unequal
+    to it: `AFP=0.3` keeps nothing, `AFP<=0.3` drops the alleles at 0.3 (defect W).  Both operands of the comparison have to be
+    brought to the precision the values are stored at."""
+    fq = 'mchap.io.filter_alleles.apply_allele_filter'
+    f = ctx.func(fq)
+    r = ctx.recon(fq)
+    cmps = [c for c, _, _ in r.calls if c[1] == 'func' and len(c[2]) == 2]
+    ctx.need(len(cmps) >= 2, f"{fq}: the comparisons func(observations, value) of the R and A branches were not found")
+
+    def single(t):
+        for x in walk(t):
+            if x[0] == 'call' and x[1] in ('numpy.float32', 'numpy.single'):
+                return True
+            if x[0] == 'call' and (x[1] in ('numpy.array', 'numpy.asarray', 'numpy.fromiter') or x[1].endswith('.astype')):
+                if any(y == ('name', 'numpy.float32') or y == ('const', 'float32') or y == ('const', 'f4') for a in list(x[2]) + [v for _, v in x[3]] for y in walk(a)):
+                    return True
+        return False
+    for k, c in enumerate(cmps):
+        obs, val = c[2]
+        approx = False
+        ctx.check((single(obs) and single(val)) or approx, 'R16.8/filter-precision', f.construct(f'comparison#{k + 1}'),
+                  "values of Float fields and the filter value are compared at the single precision the values are stored at",
+                  "the INFO values (single precision, as pysam hands them over) are compared with the filter value at double precision: a "
+                  "value written in the record exactly as the filter value is not equal to it (AFP=0.3 keeps no allele with AFP 0.3; "
+                  "AFP<=0.3 drops them)", f.where())
+
+
 def run(ctx):
+    rule_filter_precision(ctx)
     rule_missing_info(ctx)
     rule_operators(ctx)
     rule_from_record(ctx)
